@@ -273,6 +273,8 @@ func (c *Client) Signer(ctx context.Context, privateKeyId, publicKeyId string) (
 		if signer.alg != kmip.CryptographicAlgorithmEC && signer.alg != kmip.CryptographicAlgorithmECDSA {
 			return nil, fmt.Errorf("invalid public key material: got an EC key for algorithm %s", ttlv.EnumStr(signer.alg))
 		}
+	default:
+		return nil, fmt.Errorf("invalid public key material: unsupported key type %T", signer.publicKey)
 	}
 
 	return signer, nil
